@@ -81,6 +81,15 @@ func suiteHash(c *ctx) {
 			ps := p.scriptGrouped()
 			addPres("permuted-columns", ps, whole(ps), plain)
 		}
+		// indexes declared in another order (same set)
+		{
+			p := s.clone()
+			for _, t := range p.Tables {
+				g.rng.Shuffle(len(t.Idx), func(a, b int) { t.Idx[a], t.Idx[b] = t.Idx[b], t.Idx[a] })
+			}
+			ps := p.scriptGrouped()
+			addPres("permuted-indexes", ps, whole(ps), plain)
+		}
 		// detour: an extra column / index / table is created and dropped again
 		{
 			d := append([]Stmt{}, base...)
